@@ -8,6 +8,7 @@ import Driver.CmdInc
 import Driver.CmdNoisy
 import Driver.CmdHist
 import Driver.CmdVal
+import Driver.CmdTr
 open Lean Driver
 
 def dispatch (cmd : String) (j : Json) : R Json :=
@@ -27,6 +28,7 @@ def dispatch (cmd : String) (j : Json) : R Json :=
   | "res.run" => cmdResRun j
   | "val.run" => cmdValRun j
   | "fl.ops" => cmdFlOps j
+  | "tr.coord" => cmdTrCoord j
   | _ => throw s!"unknown command '{cmd}'"
 
 def handleLine (line : String) : String :=
